@@ -18,4 +18,7 @@ import Mahotas.Proofs.CScalarTies.DilateAdd
 import Mahotas.Proofs.CScalarTies.TAbs
 import Mahotas.Proofs.CScalarTies.SubmElem
 import Mahotas.Proofs.CScalarTies.MarginOf
+import Mahotas.Proofs.CScalarTies.Convex
+import Mahotas.Proofs.CScalarTies.AtFlat
+import Mahotas.Proofs.CScalarTies.PosToFlat
 
